@@ -185,9 +185,122 @@ def systematic_templates():
     return out
 
 
+def random_template(rng):
+    """A random reactant fragment (2-4 atoms over C/O/H) with a random
+    sequence of 1-4 bond edits (each pair is broken / formed / modified at
+    most once; increase / decrease may repeat), balanced automatically by
+    radical edits: atoms that gain electrons get 'rad+' edits, atoms that
+    lose electrons get a radical suffix in the pattern and 'rad-' edits."""
+    n = rng.randint(2, 4)
+    syms = [rng.choice(['C', 'C', 'O'])]
+    bonds = []
+    order = {}
+    for i in range(1, n):
+        heavy = [j for j in range(i) if syms[j] != 'H']
+        j = rng.choice(heavy)
+        sym = rng.choice(['C', 'C', 'O', 'H', 'H'])
+        k = 1
+        if sym != 'H' and rng.random() < 0.3:
+            k = rng.choice([2, 2, 3]) if sym == 'C' and syms[j] == 'C' \
+                else 2
+        syms.append(sym)
+        bonds.append((i, j, _KIND[k]))
+        order[(j, i)] = k
+    touched = set()
+    edits = []
+    cur = dict(order)
+    for _ in range(rng.randint(1, 4)):
+        op = rng.choice(['break', 'form', 'inc', 'dec', 'modify', 'inc',
+                         'dec'])
+        bonded = [p for p, k in cur.items() if k > 0]
+        if op == 'break':
+            c = [p for p in bonded if p not in touched and
+                 cur[p] == order.get(p)]
+            if not c:
+                continue
+            p = rng.choice(c)
+            kind = _KIND[cur[p]]
+            edits.append(('break', p[0], p[1],
+                          None if kind == 'single' and rng.random() < 0.5
+                          else kind))
+            cur[p] = 0
+            touched.add(p)
+        elif op == 'form':
+            c = [(a, b) for a in range(n) for b in range(a + 1, n)
+                 if cur.get((a, b), 0) == 0 and (a, b) not in touched
+                 and (a, b) not in order]
+            if not c:
+                continue
+            p = rng.choice(c)
+            k = 1 if 'H' in (syms[p[0]], syms[p[1]]) else rng.choice([1, 1,
+                                                                      2])
+            edits.append(('form', p[0], p[1],
+                          None if k == 1 and rng.random() < 0.5
+                          else _KIND[k]))
+            cur[p] = k
+            touched.add(p)
+        elif op == 'inc':
+            c = [p for p in bonded if cur[p] < 3 and
+                 'H' not in (syms[p[0]], syms[p[1]]) and
+                 (p not in touched or p in order and cur[p] != 0)]
+            c = [p for p in c if not any(e[0] in ('break', 'form', 'modify')
+                                         and (min(e[1], e[2]),
+                                              max(e[1], e[2])) == p
+                                         for e in edits)]
+            if not c:
+                continue
+            p = rng.choice(c)
+            edits.append(('inc', p[0], p[1]))
+            cur[p] += 1
+        elif op == 'dec':
+            c = [p for p in bonded if not any(
+                e[0] in ('break', 'form', 'modify') and
+                (min(e[1], e[2]), max(e[1], e[2])) == p for e in edits)]
+            if not c:
+                continue
+            p = rng.choice(c)
+            edits.append(('dec', p[0], p[1]))
+            cur[p] -= 1
+        else:
+            c = [p for p in bonded if p not in touched and
+                 cur[p] == order.get(p) and
+                 'H' not in (syms[p[0]], syms[p[1]])]
+            if not c:
+                continue
+            p = rng.choice(c)
+            k2 = rng.choice([k for k in (1, 2, 3) if k != cur[p]])
+            edits.append(('modify', p[0], p[1], _KIND[k2]))
+            cur[p] = k2
+            touched.add(p)
+    if not edits:
+        return None
+    atoms = [(s, None) for s in syms]
+    ast = {'reactant': frag(atoms, bonds), 'edits': edits}
+    bal = balance(ast)
+    if any(b < -3 for b in bal):
+        return None
+    rad_edits = []
+    for i, b in enumerate(bal):
+        if b > 0:
+            rad_edits += [('rad+', i)] * b
+        elif b < 0:
+            atoms[i] = (syms[i], _RADSFX[-b])
+            rad_edits += [('rad-', i)] * (-b)
+    rng.shuffle(rad_edits)
+    for e in rad_edits:
+        edits.insert(rng.randint(0, len(edits)), e)
+    return ('random: ' + ' '.join(e[0] for e in edits), atoms, bonds, edits)
+
+
 def gen_rule(rng, unbalanced=False):
-    desc, atoms, bonds, edits = rng.choice(templates() +
-                                           systematic_templates())
+    pick = None
+    if rng.random() < 0.4:
+        for _ in range(8):
+            pick = random_template(rng)
+            if pick is not None:
+                break
+    desc, atoms, bonds, edits = pick or rng.choice(templates() +
+                                                   systematic_templates())
     edits = list(edits)
     kind = 'balanced'
     if unbalanced:
